@@ -17,19 +17,58 @@ code before the repair.
 namespace GV.Props.C44
 open GV.Model.Pipeline GV.Proofs.Pipeline
 
-/-- A failed submission changes nothing: in particular it consumes no sequence number. -/
-theorem failed_submission_changes_nothing (c : Cfg) (h : c.legacy = false) (s : St) :
-    step c s .fail = some s := by
-  simp [step, h]
+/-- A submission that fails while it holds the turn (back-pressure, context expired) only gives
+    the turn — and with it the sequence number it had allocated — back: `counter`, the accepted
+    blocks and everything in the pipeline are unchanged. -/
+theorem failed_submission_changes_nothing (c : Cfg) (h : c.legacy = false) (s s' : St)
+    (hs : step c s .fail = some s') : s' = { s with turn := none } := by
+  simp only [step, h] at hs
+  split at hs
+  · simpa using hs.symm
+  · simp at hs
+
+/-- Concurrent submitters take turns. A caller that gives up while WAITING for its turn changes
+    nothing at all — in particular not the sequence counter (it has not allocated anything), not
+    the turn, not `PendingCount()`. -/
+theorem waiter_giving_up_changes_nothing (c : Cfg) (s s' : St) (hs : step c s .giveup = some s') :
+    s' = { s with waiters := s.waiters - 1 } ∧ seqCounter s' = seqCounter s ∧
+    pendingCount s' = pendingCount s ∧ s'.turn = s.turn := by
+  simp only [step] at hs
+  split at hs
+  · have : s' = { s with waiters := s.waiters - 1 } := by simpa using hs.symm
+    subst this
+    simp [seqCounter, pendingCount, processed]
+  · simp at hs
+
+/-- At most one submitter holds the turn, and the number it has allocated is the next one:
+    `sequenceCounter` is exactly the number of accepted blocks plus the holder's. -/
+theorem turn_holds_next_number (c : Cfg) (hc : c.legacy = false) (s : St) (hr : Reachable c s) :
+    (∀ x, s.turn = some x → x.seq = s.counter) ∧
+    seqCounter s = s.subs.length + (if s.turn.isSome then 1 else 0) := by
+  have hlen : s.subs.length = s.counter := by
+    have := (inv_reachable c hc s hr).2.subs_seq
+    simpa using congrArg List.length this
+  refine ⟨?_, by simp [seqCounter, hlen]⟩
+  refine reachable_induction (c := c) (P := fun s => ∀ x, s.turn = some x → x.seq = s.counter)
+    (by simp [init]) ?_ s hr
+  intro s e s' ih hs
+  cases e
+  all_goals
+    simp only [step, fwdStep, hc] at hs
+    repeat' split at hs
+  all_goals try (simp at hs; done)
+  all_goals
+    try injection hs with hs
+    subst hs
+  all_goals grind
 
 /-- A Submit before Start() (`ErrPipelineNotStarted`) burns no sequence number — not even in
     the code before the repair: the started check precedes the allocation — and nothing can be
     accepted before Start(). -/
 theorem submit_before_start_changes_nothing (c : Cfg) (s : St) (h : s.started = false) :
-    step c s .fail = some s ∧ ∀ x, step c s (.sub x) = none := by
-  constructor
-  · simp [step, h]
-  · intro x; simp [step, h]
+    ∀ x, step c s (.acq x) = none ∧ step c s (.sub x) = none := by
+  intro x
+  constructor <;> simp [step, h]
 
 /-- `no_seq_gap`. Over all schedules (any number of workers, any interleaving, failed
     submissions anywhere): as long as Stop has not begun, every allocated sequence number
@@ -92,7 +131,8 @@ theorem accepted_blocks_get_applied (c : Cfg) (hc : c.legacy = false) (s : St) (
 /-- Non-vacuity: a schedule with two failed submissions around accepted blocks, ending at rest. -/
 example :
     (run ⟨false, false⟩ init
-      [.start, .fail, .sub ⟨0, true, true⟩, .fail, .sub ⟨1, false, false⟩, .dt ⟨1, false, false⟩,
+      [.start, .enter, .acq ⟨0, true, true⟩, .fail, .enter, .giveup, .enter, .acq ⟨0, true, true⟩, .sub ⟨0, true, true⟩,
+       .enter, .enter, .acq ⟨1, true, true⟩, .giveup, .fail, .enter, .acq ⟨1, false, false⟩, .sub ⟨1, false, false⟩, .dt ⟨1, false, false⟩,
        .dp ⟨1, false, false⟩, .at_ ⟨1, false, false⟩, .ab ⟨1, false, false⟩,
        .dt ⟨0, true, true⟩, .dp ⟨0, true, true⟩, .at_ ⟨0, true, true⟩, .aq ⟨0, true, true⟩,
        .ap ⟨0, true, true⟩, .ad ⟨0, true, true⟩, .aq ⟨1, false, false⟩, .ad ⟨1, false, false⟩,
@@ -105,7 +145,7 @@ example :
     lost sequence number and is never applied — the pipeline is at rest with the block pending. -/
 theorem legacy_submit_stalls :
     (run ⟨false, true⟩ init
-      [.start, .fail, .sub ⟨1, true, true⟩, .dt ⟨1, true, true⟩, .dp ⟨1, true, true⟩,
+      [.start, .enter, .acq ⟨0, true, true⟩, .fail, .enter, .acq ⟨1, true, true⟩, .sub ⟨1, true, true⟩, .dt ⟨1, true, true⟩, .dp ⟨1, true, true⟩,
        .at_ ⟨1, true, true⟩, .ab ⟨1, true, true⟩]).map
       (fun s => (decide (Quiescent s), s.cancelled, s.applied, s.pending.map Item.seq, s.nextSeq, s.counter))
       = some (true, false, [], [1], 0, 2) := by decide
